@@ -411,9 +411,15 @@ def d3_text_inputs(ctx, idx):
         bcfg = cfg_of(base.node)
         for ret in lib.returns_of(base.node):
             v = ret.value
-            ok = isinstance(v, ast.Call) and isinstance(v.func, ast.Call) and nf.callee_name(v.func) == 'Schema'
+            schema_call = v.func if isinstance(v, ast.Call) else None
+            if isinstance(schema_call, ast.Name):
+                # a schema hoisted into a module-level constant bound once: _TEXT_SCHEMA = Schema(str)
+                vals = base.module.assigns.get(schema_call.id, [])
+                if len(vals) == 1 and isinstance(vals[0], ast.Call):
+                    schema_call = vals[0]
+            ok = isinstance(v, ast.Call) and isinstance(schema_call, ast.Call) and nf.callee_name(schema_call) == 'Schema'
             if ok:
-                sch = v.func.args[0] if v.func.args else None
+                sch = schema_call.args[0] if schema_call.args else None
                 is_list = isinstance(sch, ast.List)
                 elt = sch.elts[0] if is_list and sch.elts else sch
                 ok = isinstance(elt, ast.Name) and elt.id == 'str'
@@ -1153,6 +1159,10 @@ MUTANTS = [
 ]
 
 BENIGN = [
+    Benign('text-schemas-hoisted-to-module-constants', BASE,
+           [("                return Schema([str])(student_input)", "                return _TEXT_LIST_SCHEMA(student_input)"),
+            ("                return Schema(str)(student_input)", "                return _TEXT_SCHEMA(student_input)"),
+            ("class ObjectWithSchema(metaclass=DefaultValuesMeta):", "_TEXT_SCHEMA = Schema(str)\n_TEXT_LIST_SCHEMA = Schema([str])\n\n\nclass ObjectWithSchema(metaclass=DefaultValuesMeta):")], None),
     Benign('template-from-literal-prefix-local', BASE,
            "            msg = (\"There is a problem with the author's problem configuration: \"\n                   \"Expected answers to be a tuple of answers, instead received {}\")\n",
            "            prefix = \"There is a problem with the author's problem configuration: \"\n            msg = prefix + \"Expected answers to be a tuple of answers, instead received {}\"\n"),
